@@ -18,6 +18,8 @@ import (
 	"sync/atomic"
 	"time"
 
+	"github.com/pion/webrtc/v4"
+
 	"github.com/jech/galene/diskwriter"
 	"github.com/jech/galene/group"
 	"github.com/jech/galene/rtpconn"
@@ -443,6 +445,35 @@ func rtcStorm(run *vk.Run, a childArgs) {
 		}()
 	}
 	var wg sync.WaitGroup
+	// WHIP sessions created over HTTP and torn down (DELETE, or by closing the client's
+	// PeerConnection) while web clients join, publish and leave
+	for w := 0; w < 2; w++ {
+		wg.Add(1)
+		go func(w int) {
+			defer wg.Done()
+			r := run.Rand(7, a.Index, uint64(w))
+			for i := 0; i < a.Iter/400+2; i++ {
+				sdp, pc, err := vrtc.OfferSDP()
+				if err != nil {
+					continue
+				}
+				run.Note(fmt.Sprintf("whip session %d/%d", w, i))
+				st, hdr, body, err := srv.Do("POST", "/group/r1/.whip", map[string]string{"Content-Type": "application/sdp"}, []byte(sdp))
+				if err == nil && st == 201 {
+					pc.SetRemoteDescription(webrtc.SessionDescription{Type: webrtc.SDPTypeAnswer, SDP: string(body)})
+					time.Sleep(time.Duration(r.IntN(200)) * time.Millisecond)
+					if r.IntN(2) == 0 {
+						srv.Do("DELETE", hdr.Get("Location"), nil, nil)
+						run.Count("whip_sessions_deleted", 1)
+					} else {
+						run.Count("whip_sessions_abandoned", 1)
+					}
+				}
+				pc.Close()
+				ops.Add(1)
+			}
+		}(w)
+	}
 	for w := 0; w < 4; w++ {
 		wg.Add(1)
 		go func(w int) {
